@@ -5,4 +5,5 @@ import "verifharness/internal/mergex"
 func init() {
 	replayers["merge"] = mergex.Replay
 	replayers["mergekeyless"] = mergex.ReplayKeyless
+	replayers["mergefault"] = mergex.ReplayFault
 }
